@@ -54,21 +54,26 @@ class UDPListener:
             self.sock.setsockopt(socket.SOL_SOCKET, socket.SO_BROADCAST, 1)
         self.sock.bind(('0.0.0.0', UDP_PORT))
 
-        available = MAX_MESSAGE_LEN - len(self._getMessage(2**16-1))
-        if available < 0:
-            desc_length = len(self.description.encode('utf-8'))
-            if available + desc_length < 0:
+        if len(self._getMessage(2**16-1)) > MAX_MESSAGE_LEN:
+            description = self.description
+            self.description = ''
+            if len(self._getMessage(2**16-1)) > MAX_MESSAGE_LEN:
                 self.log.warn('Equipment id and firmware name exceed 430 byte '
                               'limit, not answering to udp discovery')
                 self.is_enabled = False
             else:
                 self.log.debug('truncating description for udp discovery')
-                # with errors='ignore', cutting insite a utf-8 glyph will not
-                # report an error but remove the rest of the glyph from the
-                # output.
-                self.description = self.description \
-                                       .encode('utf-8')[:available] \
-                                       .decode('utf-8', errors='ignore')
+                # longest prefix of whole characters for which the message fits
+                # (a character may need several bytes, also due to JSON escapes)
+                low, high = 0, len(description)
+                while low < high:
+                    mid = (low + high + 1) // 2
+                    self.description = description[:mid]
+                    if len(self._getMessage(2**16-1)) > MAX_MESSAGE_LEN:
+                        high = mid - 1
+                    else:
+                        low = mid
+                self.description = description[:low]
 
     def _getMessage(self, port):
         return json.dumps({
